@@ -1523,13 +1523,22 @@ class Fxp():
     def __lshift__(self, n):
         if isinstance(n, np.generic) or (isinstance(n, np.ndarray) and n.ndim == 0):
             n = int(n)
-        if self.config.shifting == 'expand':
+        if self.config.shifting == 'expand' and not np.iscomplexobj(self.val):
+            # the bits the largest magnitude needs, counted exactly on Python integers (a float log2 is off by one beyond 2**47,
+            # has no loop for the object arrays of wide words, and counts one bit too many for -2**k)
+            _bits = max([(v if v >= 0 else ~v).bit_length() for v in map(int, np.asarray(self.val).flatten().tolist())] + [0])
+            n_word = max(self.n_word, _bits + self.signed + n)
+        elif self.config.shifting == 'expand':
             n_word = max(self.n_word, int(np.max(np.ceil(np.log2(np.abs(self.val)+0.5)))) + self.signed + n)
         else:
             n_word = self.n_word
 
+        _val = self.val
+        if _val.dtype != object and not np.iscomplexobj(_val) and self.n_word + n >= _n_word_max:
+            _val = _val.astype(object)      # (the shifted code may not fit in int64: Python integers)
+
         y = Fxp(None, signed=self.signed, n_word=n_word, n_frac=self.n_frac)
-        y.set_val(self.val << np.array(n, dtype=self.val.dtype), raw=True, vdtype=self.vdtype)   # set raw val shifted
+        y.set_val(_val << np.array(n, dtype=_val.dtype), raw=True, vdtype=self.vdtype)   # set raw val shifted
         if self.status['inaccuracy']: y.status['inaccuracy'] = True
         return y
     
